@@ -116,7 +116,7 @@ pub fn run_impl(c: &Case) -> (Outcome, Vec<(f64, f64)>) {
 }
 
 pub fn trace_hash(log: &[(f64, f64)]) -> u64 {
-    log.iter().fold(HASH0, |h, (x, _)| hash_step(h, x.to_bits()))
+    log.iter().fold(HASH0, |h, (x, _)| hash_step(h, cbits(*x)))
 }
 
 /// QUADPACK qk21 constants (independent source for the C02 oracle): positive abscissae of the
